@@ -506,7 +506,7 @@ def run(ctx):
         "binary64: the Voronoi point chosen is an exact nearest point unless two squared distances agree to 2e-9 (oracle)",
         "hole filling itself (scipy.ndimage.binary_fill_holes) - C06; here `filled` only selects the list",
         "points farther than 1e30 from a cell are never selected (hypothesis of the nearest-point theorem; generators stay below 1e6 cells)"]
-    proved = cm.prove(ctx)
+    proved = cm.prove_with_kernels(ctx, ["c_intersect", "c_voronoi", "c_coord2cell", "getcoord"])
     cm.use_impl()
     rng = ctx.rng
     terms, replays = [], []
